@@ -1,4 +1,5 @@
 import CppUModel.Proofs.Plugins
+import CppUModel.Proofs.PluginsTable
 /-!
 # C17 — pointers set for a test are restored after it; plugin actions nest properly
 
@@ -487,5 +488,414 @@ example :
 example : (regRemove "a" exChain).map (·.name) = ["c", "b", "set"] := by decide
 example : (runTest exChain { mem := fun l => l, table := [] } [.set 3 100, .set 3 200, .set 5 7, .stop, .set 6 1]).store.mem 3 = 3 := by
   decide
+
+
+/-! ## the regenerated code (`Gen/PluginCode.lean`, translated from the clang AST of the current source)
+
+`storeA`, `postA`, `constructA`, `ptrSetA` execute the statement lists regenerated from `CppUTestStore`,
+`SetPointerPlugin::postTestAction`, the `SetPointerPlugin` constructor and the `UT_PTR_SET` macro on the
+array-level state `Tab` (`pointerTableIndex`, `setlist[]`, an out-of-bounds flag).  The theorems below
+say that this code, as the source has it at check time, refines the list-level model the theorems above
+are about, never evaluates `setlist[e]` outside the array, and — composed over whole test histories —
+restores every pointer. -/
+
+open Plugins.Code Gen.PluginCode
+
+/-- the array is at least as long as the limit the guard of `CppUTestStore` compares with -/
+theorem table_holds_limit : maxSet ≤ setlistLen := by decide
+
+/-- **`CppUTestStore` as regenerated** refuses exactly when the list-level `store` refuses (and then
+    changes nothing); otherwise it records exactly the entry `store` records, stays inside the array and
+    keeps the state invariant. -/
+theorem code_store_refines (t : Tab) (l : Loc) (h : WF t) :
+    ((storeA t l).isFailed = true → store (absT t) l = none ∧ (storeA t l).tab = t) ∧
+    ((storeA t l).isFailed = false → store (absT t) l = some (absT (storeA t l).tab) ∧ WF (storeA t l).tab) := by
+  obtain ⟨h0, h1, h2⟩ := h
+  have hlen := absT_table_length t h0
+  have hm : maxSet = 32 := rfl
+  by_cases hfull : t.idx ≥ 32
+  · have hs : storeA t l = .failed t := by
+      simp [storeA, storeCode, exec, execT, execS, evalC, evalI, hfull]
+    rw [hs]
+    refine ⟨fun _ => ⟨?_, rfl⟩, fun hc => by simp [Out.isFailed] at hc⟩
+    unfold store
+    have : (absT t).table.length ≥ maxSet := by omega
+    simp [this]
+  · have hb : inB setlistLen t.idx = true := by
+      have hnf : t.idx < 32 := by omega
+      simp [inB, setlistLen, h0, hnf]
+    have hs : storeA t l = .ok { t with origValue := fupd t.origValue t.idx.toNat (t.mem l),
+                                        orig := fupd t.orig t.idx.toNat l, idx := t.idx + 1 } := by
+      simp [storeA, storeCode, exec, execT, execS, evalC, evalI, evalV, evalP, envFor, hfull, hb]
+    rw [hs]
+    refine ⟨fun hc => by simp [Out.isFailed] at hc, fun _ => ⟨?_, ?_⟩⟩
+    · unfold store
+      have : ¬ (absT t).table.length ≥ maxSet := by omega
+      simp only [this, if_false, Out.tab]
+      have e : (t.idx + 1).toNat = t.idx.toNat + 1 := by omega
+      have hE : entries { t with origValue := fupd t.origValue t.idx.toNat (t.mem l),
+                                 orig := fupd t.orig t.idx.toNat l, idx := t.idx + 1 } t.idx.toNat
+                = entries t t.idx.toNat :=
+        entries_congr t _ t.idx.toNat (fun k hk => by
+          have : k ≠ t.idx.toNat := by omega
+          simp [fupd, this])
+      simp only [absT, e, entries, hE, fupd, if_true]
+    · simp only [Out.tab, WF]
+      exact ⟨by omega, by omega, h2⟩
+
+/-- **`SetPointerPlugin::postTestAction` as regenerated** is the list-level `postAction`: it undoes the
+    recorded entries from the most recent to the oldest, resets the index, and stays inside the array. -/
+theorem code_post_refines (t : Tab) (h : WF t) : absT (postA t) = postAction (absT t) ∧ WF (postA t) := by
+  obtain ⟨h0, h1, h2⟩ := h
+  have hn : t.idx.toNat ≤ (envFor 0).len := by simp only [envFor, setlistLen, maxSet] at *; omega
+  have hloop := execDown_restore (envFor 0) t.idx.toNat t hn
+  have e1 : ((t.idx.toNat : Nat) : Int) - 1 = t.idx - 1 := by omega
+  have e2 : (t.idx - 1 - 0 + 1).toNat = t.idx.toNat := by omega
+  rw [e1] at hloop
+  have hs : postA t = { t with mem := restore (entries t t.idx.toNat) t.mem, idx := 0 } := by
+    simp only [postA, postCode, exec, execT, evalI, e2, hloop, execS, Out.tab]
+  rw [hs]
+  exact ⟨by simp [absT, postAction, entries], by simp [WF, h2, maxSet]⟩
+
+/-- **the constructor as regenerated** only resets the index -/
+theorem code_construct_refines (t : Tab) (h : WF t) :
+    absT (constructA t) = construct (absT t) ∧ WF (constructA t) := by
+  have hs : constructA t = { t with idx := 0 } := by
+    simp [constructA, ctorCode, exec, execT, execS, evalI, Out.tab]
+  rw [hs]
+  exact ⟨by simp [absT, construct, entries], by simp [WF, h.2.2, maxSet]⟩
+
+/-- **`UT_PTR_SET` as regenerated** (record first, then assign) is the list-level `ptrSet` -/
+theorem code_ptrSet_refines (t : Tab) (l : Loc) (v : Val) (h : WF t) :
+    ((ptrSetA t l v).isFailed = true → ptrSet (absT t) l v = none ∧ (ptrSetA t l v).tab = t) ∧
+    ((ptrSetA t l v).isFailed = false →
+      ptrSet (absT t) l v = some (absT (ptrSetA t l v).tab) ∧ WF (ptrSetA t l v).tab) := by
+  have hs := code_store_refines t l h
+  simp only [ptrSetA, utPtrSetSteps, macroA, ptrSet]
+  cases hst : storeA t l with
+  | failed t' =>
+    rw [hst] at hs
+    have := hs.1 rfl
+    simp only [Out.tab] at this
+    refine ⟨fun _ => ⟨by rw [this.1], this.2⟩, fun hc => by simp [Out.isFailed] at hc⟩
+  | ok t' =>
+    rw [hst] at hs
+    have := hs.2 rfl
+    simp only [Out.tab] at this
+    refine ⟨fun hc => by simp [Out.isFailed] at hc, fun _ => ⟨?_, ?_⟩⟩
+    · have hE : entries { t' with mem := update t'.mem l v } t'.idx.toNat = entries t' t'.idx.toNat :=
+        entries_congr t' _ _ (fun _ _ => ⟨rfl, rfl⟩)
+      rw [this.1]; simp [absT, Out.tab, hE]
+    · exact this.2
+
+/-- **a whole test body on the regenerated code** is the list-level body: same verdict, same number of
+    redirections carried out, same memory and table, and the invariant (in particular: no access outside
+    the array) holds at its end — for every body, any length, any targets -/
+theorem code_body_refines : ∀ (body : List Stmt) (t : Tab) (n : Nat), WF t →
+    absT (runBodyA t n body).tab = (runBody (absT t) n body).store ∧
+    (runBodyA t n body).failed = (runBody (absT t) n body).failed ∧
+    (runBodyA t n body).overflow = (runBody (absT t) n body).overflow ∧
+    (runBodyA t n body).done = (runBody (absT t) n body).done ∧ WF (runBodyA t n body).tab
+  | [], _, _, h => ⟨rfl, rfl, rfl, rfl, h⟩
+  | .stop :: _, _, _, h => ⟨rfl, rfl, rfl, rfl, h⟩
+  | .set l v :: rest, t, n, h => by
+    have hp := code_ptrSet_refines t l v h
+    unfold runBodyA runBody
+    cases hst : ptrSetA t l v with
+    | failed t' =>
+      rw [hst] at hp
+      have := hp.1 rfl
+      simp only [Out.tab] at this
+      rw [this.1]
+      simp [this.2, h]
+    | ok t' =>
+      rw [hst] at hp
+      have := hp.2 rfl
+      simp only [Out.tab] at this
+      rw [this.1]
+      simp only
+      exact code_body_refines rest t' (n + 1) this.2
+
+/-- **Restore, on the code as it is at check time.**  A test that starts with an empty table and runs
+    with an enabled pointer plugin: whatever its body does, after the regenerated `postTestAction` every
+    location holds the value from before the test, the index is 0 and no `setlist[e]` was evaluated
+    outside the array. -/
+theorem restore_all_code (t : Tab) (body : List Stmt) (h : WF t) (hempty : t.idx = 0) :
+    (∀ l, (runTestA true t body).mem l = t.mem l) ∧ (runTestA true t body).idx = 0 ∧
+    (runTestA true t body).oob = false := by
+  obtain ⟨hb, _, _, _, hw⟩ := code_body_refines body t 0 h
+  obtain ⟨hp, hw'⟩ := code_post_refines (runBodyA t 0 body).tab hw
+  have hinv := runBody_restore_inv body (absT t) 0
+  have hm : (absT (runTestA true t body)).mem = restore (absT t).table (absT t).mem := by
+    simp only [runTestA, if_true]
+    rw [hp, hb]
+    simp [postAction, hinv]
+  have htab : (absT t).table = [] := by simp [absT, hempty, entries]
+  rw [htab] at hm
+  refine ⟨fun l => ?_, ?_, hw'.2.2⟩
+  · have := congrFun hm l
+    simpa [absT, restore] using this
+  · have hs : postA (runBodyA t 0 body).tab = runTestA true t body := by simp [runTestA]
+    have := congrArg (fun s => s.table.length) hp
+    simp only [absT, postAction, entries_length, List.length_nil] at this
+    rw [← hs]
+    have h0 := hw'.1
+    omega
+
+/-- consecutive tests on the array-level state, each with or without an active pointer plugin -/
+def runTestsA (t : Tab) : List (Bool × List Stmt) → Tab
+  | [] => t
+  | (active, b) :: rest => runTestsA (runTestA active t b) rest
+
+/-- **Nothing is ever written past the table**: over any history of tests — any bodies, any number of
+    redirections (also more than the limit), with the pointer plugin active, inactive or absent in any
+    pattern, so that entries pile up across tests — the regenerated code never evaluates `setlist[e]`
+    outside the array and the index stays within `0 .. MAX_SET`. -/
+theorem never_past_the_table : ∀ (tests : List (Bool × List Stmt)) (t : Tab), WF t → WF (runTestsA t tests)
+  | [], _, h => h
+  | (active, b) :: rest, t, h => by
+    have hw := (code_body_refines b t 0 h).2.2.2.2
+    have : WF (runTestA active t b) := by
+      unfold runTestA
+      cases active
+      · simpa using hw
+      · simpa using (code_post_refines _ hw).2
+    exact never_past_the_table rest _ this
+
+/-- **whole histories on the code**: with the pointer plugin active for every test, after any number of
+    consecutive tests the memory is the initial one -/
+theorem consecutive_tests_code : ∀ (bodies : List (List Stmt)) (t : Tab), WF t → t.idx = 0 →
+    (∀ l, (runTestsA t (bodies.map (fun b => (true, b)))).mem l = t.mem l) ∧
+    (runTestsA t (bodies.map (fun b => (true, b)))).idx = 0
+  | [], _, _, h0 => ⟨fun _ => rfl, h0⟩
+  | b :: rest, t, h, h0 => by
+    obtain ⟨h1, h2, h3⟩ := restore_all_code t b h h0
+    have hw : WF (runTestA true t b) := never_past_the_table [(true, b)] t h
+    obtain ⟨h4, h5⟩ := consecutive_tests_code rest (runTestA true t b) hw h2
+    exact ⟨fun l => by simp only [List.map_cons, runTestsA]; rw [h4 l, h1 l], by simpa [runTestsA] using h5⟩
+
+/-- **the chain walks as regenerated** (`runAllPreTestAction`: own action then `next_`;
+    `runAllPostTestAction`: `next_` then own action; both guarded by `enabled_`; the sentinel's overrides
+    are empty) are the list-level `runAllPre` / `runAllPost` the order theorems are about -/
+theorem code_walks_are_model (c : Chain) : runAllPreA c = runAllPre c ∧ runAllPostA c = runAllPost c := by
+  induction c with
+  | nil => exact ⟨rfl, rfl⟩
+  | cons p rest ih =>
+    simp only [runAllPreA, runAllPostA, preSteps, postSteps] at ih
+    simp [runAllPreA, runAllPostA, walk, preSteps, postSteps, runAllPre, runAllPost, ih.1, ih.2]
+
+/-- so, on the code as it is at check time: post order is the exact reverse of pre order, and after
+    installing `ps` the pre actions run last-installed first over the enabled plugins -/
+theorem code_order (ps : List Plugin) (c : Chain) :
+    runAllPostA c = (runAllPreA c).reverse ∧
+    runAllPreA (installAll ps) = ((ps.filter (·.enabled)).map (·.name)).reverse := by
+  rw [(code_walks_are_model c).1, (code_walks_are_model c).2, (code_walks_are_model _).1]
+  exact ⟨post_order_is_reverse_of_pre c, pre_order_is_install_reversed ps⟩
+
+example : WF (Tab.init (fun l => l)) := by simp [WF, Tab.init, maxSet]
+/-- 33 redirections of one pointer on the regenerated code: the last one is refused, nothing leaves the array,
+    the pointer comes back -/
+example :
+    let body := (List.replicate 33 (Stmt.set 5 77)) ++ [.set 6 1]
+    (runBodyA (Tab.init (fun l => l)) 0 body).overflow = true ∧ (runBodyA (Tab.init (fun l => l)) 0 body).done = 32 ∧
+    (runBodyA (Tab.init (fun l => l)) 0 body).tab.oob = false ∧ (runBodyA (Tab.init (fun l => l)) 0 body).tab.mem 5 = 77 ∧
+    (runTestA true (Tab.init (fun l => l)) body).mem 5 = 5 ∧ (runTestA true (Tab.init (fun l => l)) body).idx = 0 := by
+  decide
+example : runAllPreA exChain = ["c", "set", "a"] ∧ runAllPostA exChain = ["a", "set", "c"] := by decide
+
+
+/-! ## redirections in `setup()`, the body and `teardown()` -/
+
+theorem andThen_restore_inv (r : BodyResult) (next : List Stmt) :
+    restore (r.andThen next).store.table (r.andThen next).store.mem = restore r.store.table r.store.mem :=
+  runBody_restore_inv next r.store r.done
+
+/-- the invariant of `Utest::run`: undoing the table after the three phases gives the memory from which
+    the table was started — whichever phases ran, failed, threw or hit the limit -/
+theorem phases_restore_inv (s : Store) (t : Phases) :
+    restore (runPhases s t).store.table (runPhases s t).store.mem = restore s.table s.mem := by
+  unfold runPhases
+  rw [andThen_restore_inv]
+  split
+  · exact runBody_restore_inv t.setup s 0
+  · rw [andThen_restore_inv]; exact runBody_restore_inv t.setup s 0
+
+/-- **Restore, for redirections made anywhere in the test**: in `setup()`, in the body, in `teardown()`
+    — any number in each, repeated targets, any phase ending by a failure or an exception, the table
+    filling up in any phase — with an enabled pointer plugin and an empty table at the start every location
+    holds its old value after the post actions, and the table is empty. -/
+theorem restore_all_phases (c : Chain) (s : Store) (t : Phases) (hset : HasActiveSet c) (hempty : s.table = []) :
+    (∀ l, (runTestP c s t).store.mem l = s.mem l) ∧ (runTestP c s t).store.table = [] := by
+  have hb := (hasActiveSetB_iff c).mpr hset
+  have hinv := phases_restore_inv s t
+  simp only [runTestP, postStore_eq, hb, if_true, postAction]
+  rw [hinv, hempty]
+  simp [restore]
+
+/-- … over any number of consecutive tests -/
+theorem consecutive_tests_independent_phases (c : Chain) (hset : HasActiveSet c) :
+    ∀ (tests : List Phases) (s : Store), s.table = [] →
+      (∀ l, (runTestsP c s tests).mem l = s.mem l) ∧ (runTestsP c s tests).table = []
+  | [], _, h => ⟨fun _ => rfl, h⟩
+  | t :: rest, s, h => by
+    obtain ⟨h1, h2⟩ := restore_all_phases c s t hset h
+    obtain ⟨h3, h4⟩ := consecutive_tests_independent_phases c hset rest (runTestP c s t).store h2
+    exact ⟨fun l => by rw [runTestsP, h3 l, h1 l], h4⟩
+
+/-- the table never grows past the limit in any phase, and every redirection carried out is recorded -/
+theorem phases_table_length (s : Store) (t : Phases) (h : s.table.length ≤ maxSet) :
+    (runPhases s t).store.table.length = s.table.length + (runPhases s t).done ∧
+    (runPhases s t).store.table.length ≤ maxSet := by
+  have h1 := runBody_table_length t.setup s 0
+  unfold runPhases
+  split
+  · have h3 := runBody_table_length t.teardown (runBody s 0 t.setup).store (runBody s 0 t.setup).done
+    simp only [BodyResult.andThen]
+    exact ⟨by omega, h3.2 (h1.2 h)⟩
+  · have h2 := runBody_table_length t.body (runBody s 0 t.setup).store (runBody s 0 t.setup).done
+    have h3 := runBody_table_length t.teardown ((runBody s 0 t.setup).andThen t.body).store
+      ((runBody s 0 t.setup).andThen t.body).done
+    simp only [BodyResult.andThen] at h3 ⊢
+    exact ⟨by omega, h3.2 (h2.2 (h1.2 h))⟩
+
+/-- **a failing `setup()` skips the body, never `teardown()`**: the redirections of `teardown()` are
+    carried out (or refused at the limit) on what `setup()` left; a test that redirects only in its body is
+    the body-only test of the theorems above -/
+theorem failed_setup_skips_body_only (s : Store) (t : Phases) :
+    ((runBody s 0 t.setup).failed = true → runPhases s t = (runBody s 0 t.setup).andThen t.teardown) ∧
+    ((runBody s 0 t.setup).failed = false →
+      runPhases s t = ((runBody s 0 t.setup).andThen t.body).andThen t.teardown) ∧
+    (runPhases s ⟨[], t.body, []⟩).store = (runBody s 0 t.body).store ∧
+    (runPhases s ⟨[], t.body, []⟩).done = (runBody s 0 t.body).done ∧
+    (runPhases s ⟨[], t.body, []⟩).failed = (runBody s 0 t.body).failed := by
+  refine ⟨fun h => by simp [runPhases, h], fun h => by simp [runPhases, h], ?_, ?_, ?_⟩ <;>
+    simp [runPhases, runBody, BodyResult.andThen]
+
+/-- a table filled in `setup()` makes the first redirection of `teardown()` fail the test without
+    writing anything -/
+theorem limit_reached_in_setup_refuses_teardown (s : Store) (t : Phases) (l : Loc) (v : Val) (rest : List Stmt)
+    (hfull : (runBody s 0 t.setup).store.table.length = maxSet) (hfail : (runBody s 0 t.setup).failed = true)
+    (ht : t.teardown = .set l v :: rest) :
+    (runPhases s t).overflow = true ∧ (runPhases s t).store = (runBody s 0 t.setup).store ∧
+    (runPhases s t).done = (runBody s 0 t.setup).done := by
+  have hb := beyond_limit_fails_no_write (runBody s 0 t.setup).store l v rest (runBody s 0 t.setup).done (by omega)
+  simp only [runPhases, hfail, if_true, BodyResult.andThen, ht]
+  refine ⟨by simp [hb.2.2.1], ?_, hb.2.2.2.2.2⟩
+  have h1 := hb.2.2.2.1
+  have h2 := hb.2.2.2.2.1
+  cases hs : (runBody (runBody s 0 t.setup).store (runBody s 0 t.setup).done (Stmt.set l v :: rest)).store
+  rw [hs] at h1 h2
+  simp only at h1 h2
+  cases hs0 : (runBody s 0 t.setup).store
+  rw [hs0] at h1 h2
+  simp only at h1 h2
+  rw [h1, h2]
+
+/-- the phases on the regenerated code refine the list-level phases -/
+theorem code_phases_refine (t : Tab) (p : Phases) (h : WF t) :
+    absT (runPhasesA t p).tab = (runPhases (absT t) p).store ∧
+    (runPhasesA t p).failed = (runPhases (absT t) p).failed ∧
+    (runPhasesA t p).overflow = (runPhases (absT t) p).overflow ∧
+    (runPhasesA t p).done = (runPhases (absT t) p).done ∧ WF (runPhasesA t p).tab := by
+  obtain ⟨a1, a2, a3, a4, a5⟩ := code_body_refines p.setup t 0 h
+  have step : ∀ (r : BodyResultA) (r' : BodyResult) (next : List Stmt), absT r.tab = r'.store → r.failed = r'.failed →
+      r.overflow = r'.overflow → r.done = r'.done → WF r.tab →
+      absT (r.andThen next).tab = (r'.andThen next).store ∧ (r.andThen next).failed = (r'.andThen next).failed ∧
+      (r.andThen next).overflow = (r'.andThen next).overflow ∧ (r.andThen next).done = (r'.andThen next).done ∧
+      WF (r.andThen next).tab := by
+    intro r r' next e1 e2 e3 e4 hw
+    obtain ⟨b1, b2, b3, b4, b5⟩ := code_body_refines next r.tab r.done hw
+    simp only [BodyResultA.andThen, BodyResult.andThen]
+    rw [← e1, ← e4]
+    exact ⟨b1, by rw [e2, b2], by rw [e3, b3], b4, b5⟩
+  unfold runPhasesA runPhases
+  rw [a2]
+  split
+  · exact step _ _ p.teardown a1 a2 a3 a4 a5
+  · obtain ⟨c1, c2, c3, c4, c5⟩ := step _ _ p.body a1 a2 a3 a4 a5
+    exact step _ _ p.teardown c1 c2 c3 c4 c5
+
+/-- **Restore for redirections in every phase, on the code as it is at check time** -/
+theorem restore_all_phases_code (t : Tab) (p : Phases) (h : WF t) (hempty : t.idx = 0) :
+    (∀ l, (runTestPA true t p).mem l = t.mem l) ∧ (runTestPA true t p).oob = false := by
+  obtain ⟨hb, _, _, _, hw⟩ := code_phases_refine t p h
+  obtain ⟨hp, hw'⟩ := code_post_refines (runPhasesA t p).tab hw
+  have hinv := phases_restore_inv (absT t) p
+  have hm : (absT (runTestPA true t p)).mem = restore (absT t).table (absT t).mem := by
+    simp only [runTestPA, if_true]
+    rw [hp, hb]
+    simp [postAction, hinv]
+  have htab : (absT t).table = [] := by simp [absT, hempty, entries]
+  rw [htab] at hm
+  refine ⟨fun l => ?_, ?_⟩
+  · have := congrFun hm l
+    simpa [absT, restore] using this
+  · simpa [runTestPA] using hw'.2.2
+
+/-- setup fills the table to the limit and fails; teardown's redirection is refused; everything comes back -/
+example :
+    let t : Phases := ⟨(List.replicate 33 (Stmt.set 2 9)), [.set 3 1], [.set 4 1, .set 2 8]⟩
+    let s : Store := { mem := fun l => l, table := [] }
+    (runPhases s t).done = 32 ∧ (runPhases s t).overflow = true ∧ (runPhases s t).store.mem 3 = 3 ∧
+    (runPhases s t).store.mem 4 = 4 ∧ (runPhases s t).store.mem 2 = 9 ∧ (runTestP exChain s t).store.mem 2 = 2 := by
+  decide
+/-- setup redirects and throws, the body is skipped, teardown redirects the same pointer again -/
+example :
+    let t : Phases := ⟨[.set 2 9, .stop], [.set 3 1], [.set 2 8]⟩
+    let s : Store := { mem := fun l => l, table := [] }
+    (runPhases s t).done = 2 ∧ (runPhases s t).store.mem 3 = 3 ∧ (runPhases s t).store.mem 2 = 8 ∧
+    (runTestP exChain s t).store.mem 2 = 2 := by decide
+
+/-! ## the command-line runner -/
+
+theorem cliPlugin_active (id : Nat) (c : Chain) : HasActiveSet (install c (cliPlugin id)) :=
+  ⟨cliPlugin id, by simp [install], rfl, rfl⟩
+
+theorem runRepeated_restores (c : Chain) (hset : HasActiveSet c) (bodies : List (List Stmt)) :
+    ∀ (n : Nat) (s : Store), s.table = [] →
+      (∀ l, (runRepeated c s n bodies).mem l = s.mem l) ∧ (runRepeated c s n bodies).table = []
+  | 0, _, h => ⟨fun _ => rfl, h⟩
+  | n + 1, s, h => by
+    obtain ⟨h1, h2⟩ := consecutive_tests_independent c hset bodies s h
+    obtain ⟨h3, h4⟩ := runRepeated_restores c hset bodies n (runTests c s bodies) h2
+    exact ⟨fun l => by rw [runRepeated, h3 l, h1 l], h4⟩
+
+/-- **A run through the command-line runner restores everything, with no hypothesis at all**: whatever
+    plugins the registry holds (none, disabled ones, another pointer plugin), whatever earlier tests left
+    recorded in the table, for any number of repetitions of any list of tests with any bodies and outcomes —
+    the runner's own freshly constructed plugin starts with an empty table and sees every post action, so
+    after the run every location holds the value it had before the run and the table is empty. -/
+theorem cli_run_restores (id : Nat) (c : Chain) (s : Store) (n : Nat) (bodies : List (List Stmt)) :
+    (∀ l, (runCli id c s n bodies).2.mem l = s.mem l) ∧ (runCli id c s n bodies).2.table = [] :=
+  runRepeated_restores (install c (cliPlugin id)) (cliPlugin_active id c) bodies n (construct s) rfl
+
+/-- … and every single test of every repetition is restored (not only the run as a whole): the store
+    between any two tests of the run is the memory from before the run with an empty table -/
+theorem cli_every_test_restored (id : Nat) (c : Chain) (s : Store) (before : List (List Stmt)) (body : List Stmt) :
+    (∀ l, (runTest (install c (cliPlugin id)) (runTests (install c (cliPlugin id)) (construct s) before) body).store.mem l
+        = s.mem l) ∧
+    (runTest (install c (cliPlugin id)) (runTests (install c (cliPlugin id)) (construct s) before) body).store.table = [] := by
+  have hset := cliPlugin_active id c
+  obtain ⟨h1, h2⟩ := consecutive_tests_independent _ hset before (construct s) rfl
+  obtain ⟨h3, h4⟩ := restore_all _ _ body hset h2
+  exact ⟨fun l => by rw [h3 l, h1 l]; rfl, h4⟩
+
+/-- **The runner leaves the registry's chain as it found it**: its remove-by-name removes exactly the plugin
+    it installed, provided no installed plugin carries the runner's name (pairwise different names). -/
+theorem cli_run_leaves_chain (id : Nat) (c : Chain) (s : Store) (n : Nat) (bodies : List (List Stmt))
+    (hu : UniqueNames c) (hfree : Gen.Plugins.cliSetPointerName ∉ c.map (·.name)) :
+    (runCli id c s n bodies).1 = c := by
+  have hu' : UniqueNames (install c (cliPlugin id)) := by
+    simp only [install, UniqueNames, List.map_cons, List.nodup_cons]
+    exact ⟨hfree, hu⟩
+  exact install_remove_roundtrip c (cliPlugin id) hu'
+
+/-- stale entries and a full table before the run do not matter: 40 redirections recorded by a test that ran
+    without a plugin, then a run of two tests three times over -/
+example :
+    let s₀ := (runTest [] { mem := fun l => l, table := [] } (setsOf ((List.range 40).map (fun i => (i % 3, 100 + i))))).store
+    s₀.table.length = 32 ∧
+    (runCli 98 exChain s₀ 3 [[.set 1 7, .set 1 8, .stop], [.set 2 9]]).2.table = [] ∧
+    (runCli 98 exChain s₀ 3 [[.set 1 7, .set 1 8, .stop], [.set 2 9]]).2.mem 1 = s₀.mem 1 := by decide
 
 end Plugins
